@@ -74,7 +74,16 @@ def run(tier: str, seed: int) -> int:
             if obs["outcome"] == "raise":
                 exceptions[obs["exception"]] += 1
         outcome_count[(t["expect"], "ok" if not bad else "DIFFERENT")] += 1
-        if bad:
+        if bad and t["entry"] == "error_residual_std":
+            # one verdict per concrete input (the known finding of this entry is a single variant; others must still show)
+            for lab, seen, obs in bad:
+                slug = "".join(c if c.isalnum() else "-" for c in lab.split(":")[0]).strip("-")
+                rep.violation(
+                    _key(t) + ":" + slug,
+                    f"{t['entry']}: field `{t['field']}` with corruption {t['corruption']} [{lab}], {t['fact']} model: specified {t['expect']}, but the library {seen}",
+                    {"tuple": t, "variant": lab},
+                )
+        elif bad:
             lab, seen, obs = bad[0]
             others = "" if len(bad) == 1 else f" (and {len(bad) - 1} more of {len(results)} variants: " + "; ".join(f"{l} -> {s}" for l, s, _ in bad[1:3]) + ")"
             rep.violation(
